@@ -89,7 +89,10 @@ class LoopSpec:
     unroll             -> int: unroll that many times instead of cutting (concrete bound)
     """
     def __init__(self, inv=None, havoc=None, decreases=None, carried=None, index=None,
-                 frame=None):
+                 frame=None, step=None, on_head=None, on_init=None):
+        self.step = step
+        self.on_head = on_head
+        self.on_init = on_init
         self.inv = inv
         self.havoc = havoc
         self.decreases = decreases
@@ -146,6 +149,35 @@ def assigned_names(stmts):
     v = V()
     for s in stmts:
         v.visit(s)
+    return out
+
+
+def heap_assigned(stmts):
+    """Attribute / subscript names stored to in a block (syntactic frame of a loop body)."""
+    out = set()
+    def tgt(t):
+        if isinstance(t, ast.Attribute):
+            out.add(t.attr)
+        elif isinstance(t, ast.Subscript):
+            b = t.value
+            if isinstance(b, ast.Attribute):
+                out.add(b.attr)
+            elif isinstance(b, ast.Name):
+                out.add(b.id)
+            if isinstance(t.slice, ast.Constant):
+                out.add(str(t.slice.value))
+        elif isinstance(t, (ast.Tuple, ast.List)):
+            for x in t.elts:
+                tgt(x)
+    for s in stmts:
+        for n in ast.walk(s):
+            if isinstance(n, ast.Assign):
+                for t in n.targets:
+                    tgt(t)
+            elif isinstance(n, (ast.AugAssign, ast.AnnAssign)):
+                tgt(n.target)
+            elif isinstance(n, ast.Call) and isinstance(n.func, ast.Attribute):
+                out.add('call:' + n.func.attr)
     return out
 
 
@@ -477,12 +509,19 @@ class Interp:
             naz = na if is_z3(na) else z3.IntVal(na)
             if not self.e.branch(nbz != 0, 'divisor!=0'):
                 self.raise_('ZeroDivisionError')
-            if self.e.branch(nbz > 0, 'divisor>0'):
-                return naz / nbz if op == '//' else naz % nbz
-            # negative divisor: floor(a/b) = floor(-a / -b)
-            if op == '//':
-                return (-naz) / (-nbz)
-            return -((-naz) % (-nbz))
+            # symbolic divisor: uninterpreted pydiv/pymod with the linear consequences of the
+            # definition only (an over-approximation: proofs hold for every interpretation;
+            # refutations are confirmed by native replay)
+            pydiv = z3.Function('pydiv', z3.IntSort(), z3.IntSort(), z3.IntSort())
+            pymod = z3.Function('pymod', z3.IntSort(), z3.IntSort(), z3.IntSort())
+            q, r = pydiv(naz, nbz), pymod(naz, nbz)
+            self.e.note('assumed: // and % by a symbolic divisor are uninterpreted (range, sign and unit-divisor facts only)')
+            self.e.assume(z3.Implies(nbz > 0, z3.And(0 <= r, r < nbz)))
+            self.e.assume(z3.Implies(nbz < 0, z3.And(nbz < r, r <= 0)))
+            self.e.assume(z3.Implies(nbz == 1, z3.And(r == 0, q == naz)))
+            self.e.assume(z3.Implies(z3.And(nbz > 0, 0 <= naz, naz < nbz), z3.And(r == naz, q == 0)))
+            self.e.assume(z3.Implies(z3.And(nbz > 0, naz >= 0), z3.And(q >= 0, q <= naz)))
+            return q if op == '//' else r
         if op == '/':
             ra = z3.ToReal(na) if is_sym_int(na) else (z3.RealVal(na) if not is_z3(na) else na)
             rb = z3.ToReal(nb) if is_sym_int(nb) else (z3.RealVal(nb) if not is_z3(nb) else nb)
@@ -643,6 +682,8 @@ class Interp:
             self.raise_('AttributeError', name)
         if hasattr(obj, 'sym_getattr'):
             return obj.sym_getattr(self, name)
+        if hasattr(obj, 'sym_method'):
+            return BoundMethod(obj, name)
         if isinstance(obj, (list, dict, str, set, tuple, View, SymStr, OpaqueStr, frozenset)) \
                 or is_z3(obj) or isinstance(obj, (int, float)):
             return BoundMethod(obj, name)
@@ -1600,7 +1641,13 @@ class Interp:
         def bi_all(i, a, k):
             return bi_any(i, a, k, False)
         def bi_sorted(i, a, k):
-            items = i.iter_concrete(a[0])
+            try:
+                items = i.iter_concrete(a[0])
+            except Unsupported:
+                h = i.reg.sorted_hook(i, a[0], k) if i.reg else None
+                if h is not None:
+                    return h
+                raise
             if all(is_concrete(x) for x in items) and not k:
                 return sorted(items)
             if all(is_concrete(x) for x in items) and set(k) == {'reverse'} and isinstance(k['reverse'], bool):
@@ -2001,6 +2048,8 @@ class Interp:
         # --- initiation
         k0 = 0
         env.vars[idxname] = k0
+        if spec.on_init:
+            spec.on_init(self, env)
         for nm, g in inv_items(k0):
             e.prove(f'{tag}/init/{nm}', g)
         # --- havoc
@@ -2021,6 +2070,7 @@ class Interp:
             env.set(nm, nv)
         k = e.int(idxname)
         env.vars[idxname] = k
+        self.loop_mods = heap_assigned(s.body)
         e.assume(k >= 0)
         n = None
         if view is not None:
@@ -2030,6 +2080,8 @@ class Interp:
             spec.havoc(self, env, k)
         for nm, g in inv_items(k):
             e.assume(g)
+        if spec.on_head:
+            spec.on_head(self, env, k)
         dec0 = spec.decreases(self, env, k) if spec.decreases else None
         # --- one arbitrary iteration, or exit
         if view is not None:
@@ -2048,6 +2100,9 @@ class Interp:
                 env.vars.pop(idxname, None)
                 return
             k1 = k + 1
+            if spec.step:
+                for nm, g in spec.step(self, env, k):
+                    e.prove(f'{tag}/step/{nm}', g)
             env.vars[idxname] = k1
             for nm, g in inv_items(k1):
                 e.prove(f'{tag}/preserve/{nm}', g)
@@ -2063,7 +2118,7 @@ class Interp:
         it = self.eval(s.iter, env)
         ordinal, spec = self.loop_spec(s)
         items = None
-        if spec is None:
+        if spec is None or isinstance(it, (list, tuple, dict, str, set)):
             try:
                 items = self.iter_concrete(it, s.iter)
             except Unsupported:
